@@ -772,7 +772,11 @@ func (x *Exec) jump(st *State, fr *Frame, from, to *ssa.BasicBlock) {
 		x.havocLoop(st, fr, to)
 		x.assumeInvariants(st, fr, lc, n, to)
 		fr.active[to] = true
-		st.tr("loop%d", n)
+		if lc == nil || len(lc.Invariants) == 0 {
+			st.tr("loop%d(no-invariant)", n)
+		} else {
+			st.tr("loop%d", n)
+		}
 	}
 	if !x.countPathSoft() {
 		return
@@ -1709,7 +1713,7 @@ func (x *Exec) hooksFiringIn(fr *Frame, hdr *ssa.BasicBlock) map[string]bool {
 	}
 	mark := func(kind, key string, any bool) {
 		for _, h := range fc.Hooks {
-			if any || (h.Kind == kind && x.matchKey(h.Pattern, key)) {
+			if any || x.matchHook(h, kind, key) {
 				out["$hook:"+h.Kind+":"+h.Pattern] = true
 				for _, d := range h.Dos {
 					n := d.Name
